@@ -428,6 +428,13 @@ def run(repo, rep):
     from . import c09
 
     rep.run_borrowed(c09, {"C09-b": "C19-d", "C09-a": "C19-d"}, repo)
+    rep.clause("C19-k", "a table generator does not edit the quantisation record of the tensor it reads (a zeroed input zero point shifts every later table built from that tensor) [rule shared with C11-i]; constant buffers are viewed through the numpy type of their tensor type (QUANTIZE folding reads them) [rule shared with C11-b]")
+    from . import c11 as _c11
+
+    rep.run_borrowed(_c11, {"C11-i": "C19-k"}, repo, only_sites=("lut.py", "tflite_graph_optimiser"))
+    rep.run_borrowed(_c11, {"C11-s": "C19-k"}, repo)
+    rep.clause("C19-l", "the scale helpers behind the tables are evaluated on every call: no memo decorator makes the float width of the first caller decide later results [rule shared with C09-g]")
+    rep.run_borrowed(c09, {"C09-g": "C19-l"}, repo, only_sites=("scaling.py",))
     rule_table_generators_in_double(repo, rep)
 
 
